@@ -328,6 +328,8 @@ func c05GenRandom(r *kit.Rand, i int) c05Case {
 		sb.WriteString("--" + strconv.Itoa(r.Intn(20)))
 	case 7:
 		sb.WriteString(strconv.Itoa(r.Intn(20)))
+	case 8: // digit runs of any length (the statement puts no bound on N)
+		sb.WriteString(kit.Pick(r, []string{"-", "-", "-", "--", "", "/"}) + c05Digits(r, r.Range(1, 30)))
 	}
 	c := c05Case{Name: kit.B(sb.String())}
 
@@ -354,6 +356,239 @@ func c05GenRandom(r *kit.Rand, i int) c05Case {
 		}
 	}
 	return c
+}
+
+// c05Digits returns n decimal digits; leading zeros, all-nines and values
+// around the powers of two occur.
+func c05Digits(r *kit.Rand, n int) string {
+	b := make([]byte, n)
+	switch r.Intn(5) {
+	case 0:
+		for i := range b {
+			b[i] = '9'
+		}
+	case 1:
+		for i := range b {
+			b[i] = '0'
+		}
+		if r.Bool() {
+			b[n-1] = '1'
+		}
+	default:
+		for i := range b {
+			b[i] = byte('0' + r.Intn(10))
+		}
+		for i := 0; i < n-1 && r.Chance(0.4); i++ {
+			b[i] = '0'
+		}
+	}
+	return string(b)
+}
+
+// ---------------------------------------------------------------------------
+// Digit tails of every length (enumerated)
+
+func c05EnumDigitTails(thorough bool, yield func(c05Case)) {
+	prefixes := []string{"", "a", "Hash", "a/b=1", "a/gomaxprocs=2", "a-", "a/", "a/-", "-", "a-1", "a=", "é", "a/b=1/c"}
+	seps := []string{"-", "--", "/", "", "=", "-0-"}
+	fixed := []string{
+		"4294967295", "4294967296", "9223372036854775807", "9223372036854775808",
+		"18446744073709551615", "18446744073709551616", "18446744073709551617",
+		"018446744073709551616", "99999999999999999999", "340282366920938463463374607431768211456",
+	}
+	tails := []string{"", "a", "-", "/"}
+	i := 0
+	emit := func(digits string) {
+		for _, p := range prefixes {
+			for _, sep := range seps {
+				for _, tl := range tails {
+					yield(c05Case{Name: kit.B(p + sep + digits + tl), Cfg: c05Configs[i%len(c05Configs)]})
+					i++
+				}
+			}
+		}
+	}
+	for _, d := range fixed {
+		emit(d)
+	}
+	for n := 1; n <= 30; n++ {
+		emit(strings.Repeat("9", n))
+		emit(strings.Repeat("0", n))
+		emit("1" + strings.Repeat("0", n-1))
+		emit(strings.Repeat("0", n-1) + "1")
+		emit(("1234567890" + "1234567890" + "1234567890")[:n])
+	}
+}
+
+// ---------------------------------------------------------------------------
+// Histories: ONE projection and ONE filter per key applied to a sequence of
+// names. What a key denotes for a name is a function of that name (and its
+// configuration) alone, so it must not depend on the names seen before.
+
+type c05HistCase struct {
+	Names []kit.B
+	Cfgs  [][]c05KV  // one configuration map per name
+	Keys  []kit.B    // distinct keys; one reused single-field projection each
+	Lits  [][2]kit.B // per key: the two literals of the filter key:"l0" OR key:"l1"
+}
+
+func c05GenHist(r *kit.Rand, i int) c05HistCase {
+	subKeys := []string{"k", "j", "gomaxprocs", ""}
+	vals := []string{"1", "2", "x", "", "3-4", "a=b"}
+	// A small pool of names with repeated keys at varying part positions.
+	mkName := func() string {
+		var sb strings.Builder
+		sb.WriteString(kit.Pick(r, []string{"Scan", "B", "", "k=1"}))
+		for n := r.Range(0, 5); n > 0; n-- {
+			sb.WriteByte('/')
+			switch r.Intn(8) {
+			case 0:
+				sb.WriteString(kit.Pick(r, vals)) // positional
+			case 1: // empty
+			default:
+				key := subKeys[0]
+				if r.Chance(0.45) {
+					key = kit.Pick(r, subKeys)
+				}
+				sb.WriteString(key + "=" + kit.Pick(r, vals))
+			}
+		}
+		switch r.Intn(6) {
+		case 0, 1:
+			sb.WriteString("-" + strconv.Itoa(r.Range(1, 16)))
+		case 2:
+			sb.WriteString("-" + c05Digits(r, r.Range(1, 25)))
+		}
+		return sb.String()
+	}
+	pool := make([]string, r.Range(2, 5))
+	for k := range pool {
+		pool[k] = mkName()
+	}
+	cfgKeys := []string{"k", "goos"}
+	var c c05HistCase
+	var seenVals []string
+	for n := r.Range(2, 8); n > 0; n-- {
+		name := kit.Pick(r, pool)
+		c.Names = append(c.Names, kit.B(name))
+		var cfg []c05KV
+		for _, ck := range cfgKeys {
+			if r.Chance(0.5) {
+				cfg = append(cfg, c05KV{K: kit.B(ck), V: kit.B(kit.Pick(r, vals)), File: r.Bool()})
+			}
+		}
+		c.Cfgs = append(c.Cfgs, cfg)
+	}
+	keys := []string{"/k"}
+	for _, k := range []string{"/j", "/gomaxprocs", "/", ".name", ".fullname", "k", "goos", "/zz"} {
+		if r.Chance(0.3) {
+			keys = append(keys, k)
+		}
+	}
+	kit.Shuffle(r, keys)
+	for _, k := range keys {
+		for j, nm := range c.Names {
+			v, _ := c05RefGet(k, string(nm), c.Cfgs[j])
+			seenVals = append(seenVals, v)
+		}
+		l0, l1 := kit.Pick(r, seenVals), kit.Pick(r, vals)
+		if r.Chance(0.5) {
+			l1 = kit.Pick(r, seenVals)
+		}
+		c.Keys = append(c.Keys, kit.B(k))
+		c.Lits = append(c.Lits, [2]kit.B{kit.B(l0), kit.B(l1)})
+	}
+	return c
+}
+
+func c05HistCheck(c c05HistCase) *kit.Fail {
+	if len(c.Keys) == 0 || len(c.Lits) != len(c.Keys) || len(c.Cfgs) != len(c.Names) {
+		return nil
+	}
+	words := make([]string, len(c.Keys))
+	for i, k := range c.Keys {
+		words[i] = c05Word(string(k))
+	}
+	// One single-field projection per key, each from its own parser (in a
+	// shared parser .fullname would leave out the other keys: C08's subject).
+	projs := make([]*benchproc.Projection, len(c.Keys))
+	fields := make([]*benchproc.Field, len(c.Keys))
+	for i, w := range words {
+		var pp benchproc.ProjectionParser
+		proj, err := pp.Parse(w, nil)
+		if err != nil {
+			return kit.Failf("projection-rejected", "projection %s rejected: %v", w, err)
+		}
+		fs := proj.Fields()
+		if len(fs) != 1 || fs[0].Name != string(c.Keys[i]) {
+			return kit.Failf("projection-fields", "projection %s has fields %v", w, fs)
+		}
+		projs[i], fields[i] = proj, fs[0]
+	}
+	filters := make([]*benchproc.Filter, len(c.Keys))
+	fexprs := make([]string, len(c.Keys))
+	for i, w := range words {
+		fexprs[i] = w + ":" + strconv.Quote(string(c.Lits[i][0])) + " OR " + w + ":" + strconv.Quote(string(c.Lits[i][1]))
+		f, err := benchproc.NewFilter(fexprs[i])
+		if err != nil {
+			return kit.Failf("filter-rejected", "filter %s rejected: %v", fexprs[i], err)
+		}
+		filters[i] = f
+	}
+	for j, nb := range c.Names {
+		name := string(nb)
+		cc := c05Case{Name: nb, Cfg: c.Cfgs[j]}
+		for i, kb := range c.Keys {
+			k := string(kb)
+			want, alt := c05RefGet(k, name, c.Cfgs[j])
+			got := projs[i].Project(c05Result(cc)).Get(fields[i])
+			if got != want && (alt == nil || got != *alt) {
+				return kit.Failf(c05Sig(k, "projection"), "history %q, step %d: key %q of name %q cfg %v through the reused projection = %q, want %q",
+					c.Names[:j], j, k, name, c.Cfgs[j], got, want)
+			}
+			l0, l1 := string(c.Lits[i][0]), string(c.Lits[i][1])
+			wantM := want == l0 || want == l1
+			if alt != nil {
+				if altM := *alt == l0 || *alt == l1; altM != wantM {
+					continue // either value is admitted and they decide differently
+				}
+			}
+			res := c05Result(cc)
+			m, _ := filters[i].Match(res)
+			if m.Test(0) != wantM || m.All() != wantM || m.Any() != wantM {
+				return kit.Failf(c05Sig(k, "filter"), "history %q, step %d: reused filter %s on name %q cfg %v: Test(0)=%v All=%v Any=%v, want %v (key denotes %q)",
+					c.Names[:j], j, fexprs[i], name, c.Cfgs[j], m.Test(0), m.All(), m.Any(), wantM, want)
+			}
+		}
+	}
+	return nil
+}
+
+// c05HistNonTrivial: at least two different names, and some name carries a
+// projected sub-name key in two of its segments.
+func c05HistNonTrivial(c c05HistCase) bool {
+	distinct := map[string]bool{}
+	dup := false
+	for _, nb := range c.Names {
+		distinct[string(nb)] = true
+		_, parts, _, _ := c05RefSplit(string(nb))
+		for _, kb := range c.Keys {
+			k := string(kb)
+			if !strings.HasPrefix(k, "/") {
+				continue
+			}
+			n := 0
+			for _, p := range parts {
+				if strings.HasPrefix(p, k+"=") {
+					n++
+				}
+			}
+			if n >= 2 {
+				dup = true
+			}
+		}
+	}
+	return dup && len(distinct) >= 2
 }
 
 func TestVerifC05(t *testing.T) {
@@ -392,5 +627,17 @@ func TestVerifC05(t *testing.T) {
 		Rule:            "random names of 0-6 segments over letters, digits, multi-byte runes, invalid UTF-8 bytes, blanks and expression operators, with key=value, positional and empty segments, repeated keys, explicit gomaxprocs= segments, and tails -N, '-', -Nx, --N, N; random configuration maps (file and internal); keys = .name,.fullname,/gomaxprocs, every sub-name key of the name, missing keys, every configuration key; non-trivial as above",
 		HangIsViolation: true,
 	}
-	kit.Run(t, "C05", exhaustive, random)
+	digitTails := kit.Class[c05Case]{
+		Name: "digit-tails", Enum: c05EnumDigitTails,
+		Check: c05Check, NonTrivial: func(c c05Case) bool { _, _, _, has := c05RefSplit(string(c.Name)); return has }, MinNonTrivial: 5000,
+		Rule:            "13 prefixes x separators {-,--,/,none,=,-0-} x digit runs of every length 1..30 (all nines, all zeros, 1 followed by zeros, zeros followed by 1, 1234567890...) and the decimal values around 2^32, 2^63, 2^64, 2^128 x tails {none,a,-,/}; keys as in the exhaustive class; non-trivial = the reference decomposition has a trailing -N part",
+		HangIsViolation: true,
+	}
+	history := kit.Class[c05HistCase]{
+		Name: "reused-extractor-histories", Quick: 20000, Thorough: 600000,
+		Gen: c05GenHist, Check: c05HistCheck, NonTrivial: c05HistNonTrivial, MinNonTrivial: 4000,
+		Rule:            "sequences of 2-8 names drawn from a pool of 2-5 names (0-5 segments over sub-name keys {k,j,gomaxprocs,empty} with repeated keys at varying part positions, positional and empty segments, optional -N of 1-25 digits), each with its own configuration map; ONE single-field projection and ONE filter key:\"l0\" OR key:\"l1\" per key (literals drawn from the values occurring in the sequence) are reused over the whole sequence and every step is compared with the per-name reference; non-trivial = at least two distinct names and some name carries a projected sub-name key in two segments",
+		HangIsViolation: true,
+	}
+	kit.Run(t, "C05", exhaustive, random, digitTails, history)
 }
